@@ -171,6 +171,16 @@ impl DmlExecutor {
         // Build the full row with the assigned row ID
         let full_row = self.build_full_row(&schema, columns, values, row_id)?;
 
+        // A replayed row (recovery) brings its own row ID: the index entries must point at it,
+        // and the counter must stay ahead of it.
+        let row_id = match &full_row[0] {
+            DataType::BigUInt(id) => *id,
+            _ => row_id,
+        };
+        while relation.next_row_id().value() <= row_id.value() {
+            relation.increment_row_id();
+        }
+
         // Constraint validation goes here.
         self.validate_insert_constraints(&relation, full_row.as_slice())?;
         let indexes = relation.get_indexes();
